@@ -697,3 +697,118 @@ func c11everyShardDistributed(c *an.Ctx) {
 	}
 	f.LoopVisitsAll(r, hand, "every shard of the list is handed out (one per iteration, no early exit)")
 }
+
+func init() {
+	old := All["C11"].Run
+	All["C11"].Run = func(c *an.Ctx) {
+		old(c)
+		c11dbShardKeyPrecedence(c)
+	}
+	All["C11"].Rules += " R13"
+	addLevel("C11", "Writers and the shard mapper agree on which shard key distributes a measurement: the database's shard key whenever it is not empty, decided by that test alone on every side.")
+}
+
+// c11dbShardKeyPrecedence — C11.R13.  The three writers and the read-side shard mapper pick the
+// database's shard key when it has one and the measurement's otherwise.  The sides agree only if
+// each takes `&db.ShardKey` under the single test len(db.ShardKey.ShardKey) > 0; an extra conjunct
+// on one side sends rows and queries to different shards.
+func c11dbShardKeyPrecedence(c *an.Ctx) {
+	r := c.Rule("C11.R13", "K-SIBLING", "coordinator, services/writer: &DatabaseInfo.ShardKey is chosen under exactly `len(db.ShardKey.ShardKey) > 0` on the read side and on every write side")
+	fld := obj(r, metaPkg+":DatabaseInfo.ShardKey")
+	if fld == nil {
+		return
+	}
+	n := 0
+	sides := map[string]bool{}
+	for _, s := range c.P.StoresTo(fld) {
+		if s.How != "addr" || s.Caller == nil {
+			continue
+		}
+		pkg := s.Caller.Pkg.PkgPath
+		if !strings.HasSuffix(pkg, "/coordinator") && !strings.HasSuffix(pkg, "/services/writer") {
+			continue
+		}
+		f := c.P.Fn(s.Caller)
+		if f == nil {
+			continue
+		}
+		// the address must be the right-hand side of an assignment
+		var as *ast.AssignStmt
+		for p := f.Parent(s.Node); p != nil; p = f.Parent(p) {
+			if a, ok := p.(*ast.AssignStmt); ok {
+				as = a
+				break
+			}
+			if _, ok := p.(ast.Stmt); ok {
+				break
+			}
+		}
+		if as == nil {
+			continue
+		}
+		n++
+		sides[an.CallerName(s.Caller)] = true
+		ue, _ := s.Node.(*ast.UnaryExpr)
+		var base string
+		if ue != nil {
+			if sel, ok := ast.Unparen(ue.X).(*ast.SelectorExpr); ok {
+				base = types.ExprString(sel.X)
+			}
+		}
+		var ifs *ast.IfStmt
+		for p := f.Parent(as); p != nil; p = f.Parent(p) {
+			if i, ok := p.(*ast.IfStmt); ok {
+				ifs = i
+				break
+			}
+		}
+		okShape := false
+		if ifs != nil && base != "" {
+			if be, ok := ast.Unparen(ifs.Cond).(*ast.BinaryExpr); ok {
+				l, rr := types.ExprString(ast.Unparen(be.X)), types.ExprString(ast.Unparen(be.Y))
+				want := "len(" + base + ".ShardKey.ShardKey)"
+				switch {
+				case l == want && rr == "0" && (be.Op.String() == ">" || be.Op.String() == "!="):
+					okShape = true
+				case rr == want && l == "0" && (be.Op.String() == "<" || be.Op.String() == "!="):
+					okShape = true
+				}
+			}
+		}
+		if !okShape {
+			cond := "<none>"
+			if ifs != nil {
+				cond = types.ExprString(ifs.Cond)
+			}
+			r.Fail(an.CallerName(s.Caller)+": database shard key under a different test", c.P.Pos(as.Pos()), "%s takes the database's shard key under `%s`, not under the single test `len(%s.ShardKey.ShardKey) > 0` that every other side uses: rows are placed by one key and queries pruned by another", an.CallerName(s.Caller), cond, base)
+		}
+	}
+	r.AddSites(n)
+	r.Floor(4, "sites that choose the database's shard key")
+	_ = sides
+}
+
+func init() {
+	old := All["C11"].Run
+	All["C11"].Run = func(c *an.Ctx) {
+		old(c)
+		c11shardIndexListFixedAtCreation(c)
+	}
+	All["C11"].Rules += " R14"
+	addLevel("C11", "The list of shards a measurement with a fixed shard count uses inside a shard group is fixed when the group (or the measurement) is created: nothing recomputes it for a group that may already hold rows.")
+}
+
+// c11shardIndexListFixedAtCreation — C11.R14.  MeasurementInfo.ShardIdexes[group] is the modulus
+// domain of ShardFor for writers and for the shard mapper.  It is drawn from a seeded permutation
+// of len(group.Shards), so recomputing it after the group grew picks another subset and rows
+// written before are no longer found.  It is assigned only for a new group / a new measurement.
+func c11shardIndexListFixedAtCreation(c *an.Ctx) {
+	r := c.Rule("C11.R14", "K-WHOCALLS", metaPkg+": the per-group shard index list of a measurement is computed only for a new shard group or a new measurement")
+	c.WhoCalls(r, obj(r, metaPkg+":Data.mapShardsToMst"), "Data.mapShardsToMst", an.Allowed{
+		metaPkg + ":(*Data).CreateShardGroup": "the group was created a few lines above and holds no rows",
+	})
+	c.WhoCalls(r, obj(r, metaPkg+":mapShards"), "mapShards", an.Allowed{
+		metaPkg + ":(*Data).mapShardsToMst":           "new group",
+		metaPkg + ":(*Data).createVersionMeasurement": "new measurement (version): no rows of it exist in any group",
+	})
+}
